@@ -160,6 +160,19 @@ func facts(f *hc.Facts) {
 	} else {
 		f.Raw("def offsetItersAsModelled : Bool := missing_fact_offsetItersAsModelled -- offset bookkeeping of an offset-based iterator changed")
 	}
+	// dialogs: the offset peer is built from the page's entities, with an error return when it cannot be
+	dsrc := strings.Join(strings.Fields(f.FuncSrc("telegram/query/dialogs", "Iterator.apply")), "")
+	fromEnt := strings.Contains(dsrc, `dlgPeer,ok:=dialogPeer(dialogs[len(m.buf)-1])if!ok{returnerrors.Errorf(`) &&
+		strings.Contains(dsrc, `p,err:=entities.ExtractPeer(dlgPeer)iferr!=nil{returnerrors.Wrap(err,"getoffsetpeer")}m.offsetPeer=p`)
+	fromBuf := strings.Contains(dsrc, "m.offsetPeer=m.buf[len(m.buf)-1].Peer")
+	switch {
+	case fromEnt && !fromBuf:
+		f.Bool("dlgOffsetPeerFromEntities", true, "dialogs apply: offset peer = ExtractPeer(last dialog's peer), error return on failure")
+	case fromBuf && !fromEnt:
+		f.Bool("dlgOffsetPeerFromEntities", false, "dialogs apply: offset peer taken from the buffered element (InputPeerEmpty when the entity is missing)")
+	default:
+		f.Raw("def dlgOffsetPeerFromEntities : Bool := missing_fact_dlgOffsetPeerFromEntities -- dialogs apply: offset peer update not recognised")
+	}
 	bufNextFact(f, "bufNextStopsAtEnd", "telegram/query/messages")
 	bufNextFact(f, "dlgBufNextStopsAtEnd", "telegram/query/dialogs")
 }
@@ -392,6 +405,7 @@ type dlgServer struct {
 	ds    []dlg
 	kinds string
 	cap   int // server-side page cap: a page holds min(limit, cap) dialogs
+	noEnt map[int]bool // peers whose user/chat/channel object is left out of the answers
 	reqs  []string
 }
 
@@ -428,6 +442,9 @@ func (s *dlgServer) Query(ctx context.Context, req dialogs.Request) (tg.Messages
 	)
 	for _, d := range page {
 		dialogsOut = append(dialogsOut, &tg.Dialog{Peer: peerOf(d.peer), TopMessage: d.top})
+		if s.noEnt[d.peer] {
+			continue
+		}
 		switch d.peer % 3 {
 		case 0:
 			users = append(users, &tg.User{ID: int64(d.peer), AccessHash: int64(d.peer) * 3})
@@ -479,7 +496,11 @@ func iterateDlgs(srv *dlgServer, limit, maxCalls int) (obs string, yields []dlg,
 			continue
 		}
 		y := dlg{peer: peerNum(d.Peer), top: d.TopMessage}
-		if e.Last == nil || e.Last.GetID() != d.TopMessage || inputPeerNum(e.Peer) != y.peer {
+		wantPeer := y.peer
+		if srv.noEnt[y.peer] {
+			wantPeer = 0 // no entity: the element carries InputPeerEmpty
+		}
+		if e.Last == nil || e.Last.GetID() != d.TopMessage || inputPeerNum(e.Peer) != wantPeer {
 			lastBad = fmt.Sprintf("dialog peer=%d: Last/Peer do not belong to it", y.peer)
 		}
 		if e.Last != nil {
@@ -493,11 +514,15 @@ func iterateDlgs(srv *dlgServer, limit, maxCalls int) (obs string, yields []dlg,
 		dn = 1
 		after = it.Next(ctx) || it.Next(ctx)
 	}
+	ef := 0
 	if it.Err() != nil {
-		obs = "err " + it.Err().Error()
-		return
+		ef = 1
+		if !strings.Contains(it.Err().Error(), "get offset peer") {
+			obs = "err " + it.Err().Error()
+			return
+		}
 	}
-	obs = fmt.Sprintf("y=%s r=%s done=%d", showDlgs(yields), orDash(strings.Join(srv.reqs[:nreq], ",")), dn)
+	obs = fmt.Sprintf("y=%s r=%s done=%d err=%d", showDlgs(yields), orDash(strings.Join(srv.reqs[:nreq], ",")), dn, ef)
 	return
 }
 
@@ -701,10 +726,38 @@ func run(c *hc.Ctx) error {
 		if capv < cf.limit {
 			c.Count("dlg.server-caps-page")
 		}
-		srv := &dlgServer{ds: ds, kinds: kinds, cap: capv}
+		// sometimes the answers' users/chats maps lack the entity of a dialog: the last one of a page
+		// (no offset peer can be built: the iteration must stop with an error, never continue from a wrong
+		// offset) or one in the middle of a page (only that element's Peer is empty)
+		noEnt := map[int]bool{}
+		var noEntList []int
+		if cf.n > 0 && r.Chance(25) {
+			psz := minOf(cf.limit, capv)
+			for k := r.Range(1, 2); k > 0; k-- {
+				idx := r.Intn(cf.n)
+				if r.Chance(60) && psz <= cf.n {
+					idx = psz*r.Range(1, cf.n/psz) - 1 // last dialog of a page
+				}
+				if !noEnt[ds[idx].peer] {
+					noEnt[ds[idx].peer] = true
+					noEntList = append(noEntList, ds[idx].peer)
+				}
+			}
+			c.Count("dlg.missing-entity")
+		}
+		srv := &dlgServer{ds: ds, kinds: kinds, cap: capv, noEnt: noEnt}
 		maxCalls := cf.n + 5
 		obs, ys, done, after, lastBad, p := iterateDlgs(srv, cf.limit, maxCalls)
-		line := fmt.Sprintf("dlg %d %d %d %s %s", cf.limit, capv, maxCalls, orDash(kinds), showDlgs(ds))
+		line := fmt.Sprintf("dlg %d %d %d %s %s %s", cf.limit, capv, maxCalls, orDash(kinds), showDlgs(ds), joinInts(noEntList))
+		failed := strings.HasSuffix(obs, "err=1")
+		seen := map[int]bool{}
+		dup := -1
+		for _, y := range ys {
+			if seen[y.peer] {
+				dup = y.peer
+			}
+			seen[y.peer] = true
+		}
 		c.Eval(line, cf.n > cf.limit)
 		switch {
 		case cf.n == 0:
@@ -722,6 +775,16 @@ func run(c *hc.Ctx) error {
 			obs = "panic"
 		case strings.HasPrefix(obs, "err "):
 			c.Fail("dlg-error", line, obs)
+		case dup >= 0:
+			c.Fail("dlg-yielded-twice", line, fmt.Sprintf("dialog with peer %d yielded twice: %s", dup, showDlgs(ys)))
+		case failed && len(noEnt) == 0:
+			c.Fail("dlg-error", line, "iteration failed although every entity was sent")
+		case failed:
+			// stopped with an error: what was yielded must be a prefix of the list
+			if len(ys) > len(ds) || showDlgs(ys) != showDlgs(ds[:len(ys)]) {
+				c.Fail("dlg-not-exact", line, "yielded "+showDlgs(ys)+" before the error")
+			}
+			c.Count("dlg.stopped-with-error")
 		case showDlgs(ys) != showDlgs(ds):
 			c.Fail("dlg-not-exact", line, "yielded "+showDlgs(ys))
 		case lastBad != "":
